@@ -10,12 +10,12 @@ from .terms import Unsupported
 
 def normalizer_for(c, extra_hyps=(), extra_facts=()):
     N = Normalizer(list(c.all_facts()) + list(extra_facts))
-    for t in c.notes.get("pos_diag", []):
-        N.add_pos(t)
     for h in list(c.hyps) + list(extra_hyps):
         lhs, rhs, name = h[0], h[1], h[2]
         orient = h[3] if len(h) > 3 else None
         N.add_hyp(lhs, rhs, name=name, orient=orient)
+    for t in c.notes.get("pos_diag", []):
+        N.add_pos(t)
     return N
 
 
